@@ -14,7 +14,7 @@ from typing import Any, Dict, List, Optional
 import z3
 
 from vf import pyvc
-from vf.core import Ob, scenario, simple_ob, sym_run, z3_valid, PROVED
+from vf.core import Ob, scenario, simple_ob, sym_run, z3_valid, PROVED, worst_per_name
 from vf.jasmrt import J, ensure, find_callable, patch_all, restore_all
 from vf.pyvc import Name, SymBool, SymSeq, Unsupported, ctx
 
@@ -283,11 +283,7 @@ def match_all():
         finally:
             _restore()
         # obligations recorded by the loop contract (variant runs produce duplicates: keep one per name)
-        seen = set()
-        for o in inner:
-            if o.name not in seen:
-                seen.add(o.name)
-                obs.append(o)
+        obs.extend(worst_per_name(inner))
         for i, p in enumerate(run.paths):
             if p.kind != "ret":
                 obs.append(simple_ob(f"{base}:p{i}:EXC", CC + ".do_match_all_findings", "EXC", "no exception", False, ["C11"], detail=repr(p.value), witness="exc"))
